@@ -53,7 +53,7 @@ def gen(rng: random.Random, tier: str, idx: int) -> dict:
                 # is registered, then the transaction stays open for g
                 part = rng.random() < 0.5      # partitioned layout: every writer's file has the same basename
                 ops.append({"kind": "files_append", "tag": f"w{i}.{j}", "n": 1, "age": rng.choice([0.0, 7200.0, 7200.0]),
-                            **({"dir": f"p={i + 1}{'abc'[j]}", "name": "pre_part0"} if part else {}),   # one directory per file: a path is never re-used
+                            **({"dir": f"p={i + 1}{'abc'[j]}", "name": rng.choice(["pre_part0", "pre_part0", ".tmp.pre_export"])} if part else {}),   # one directory per file: a path is never re-used
                             "gap": g, "rollback": rng.random() < 0.1})
             elif r < 0.7:
                 ops.append({"kind": "long_append", "tag": f"w{i}.{j}", "n": 1, "gap": g, "rollback": rng.random() < 0.15})
@@ -92,10 +92,10 @@ def gen(rng: random.Random, tier: str, idx: int) -> dict:
 def prebuilt_cause(sim, path: str) -> str:
     """For a pre-built file (append_files) that the collector removed: was its in-flight marker written before or after the
     collector's marker listing of the run that removed it?  ('before' means the protection was in force and ignored.)"""
-    b = path.rsplit("/", 1)[-1]
-    reg = [g for (g, _vt, a, op, t, o) in sim.log
-           if op in ("replace", "put") and o == "ok" and f"inflight/{b}." in t and t.endswith(".inflight")
-           and "/.tmp." not in t]
+    # (when the file was registered is taken from the harness's own record of the append_files() call - marker NAMES are
+    #  the library's business and carry no meaning here)
+    reg = [h["resolved"]["registered_g"] for h in sim.extra.get("world_history", [])
+           if h.get("resolved", {}).get("staged") == path.lstrip("/") and "registered_g" in h.get("resolved", {})]
     dele = [g for (g, _vt, a, op, t, o) in sim.log
             if a.startswith("gc") and op in ("remove", "delete") and o == "ok" and t.lstrip("/") == path.lstrip("/")]
     if not dele:
@@ -167,7 +167,7 @@ def execute(plan: dict, scratch: str, replay: Optional[dict] = None) -> dict:
                 st = None
                 V.append({"clause": "G.final_unreadable",
                           "msg": f"[{cfg}] a file of a snapshot in the final metadata is missing/unreadable: {e}",
-                          "sig": (f"G.final_unreadable|{backend}|{e.kind}" if "/pre_" not in e.path else
+                          "sig": (f"G.final_unreadable|{backend}|{e.kind}" if "pre_" not in e.path.rsplit("/", 1)[-1] else
                                   "G.final_unreadable|prebuilt|" + prebuilt_cause(sim, e.path))})
                 try:
                     st = w.state(deep=True, rows=False)
@@ -181,7 +181,7 @@ def execute(plan: dict, scratch: str, replay: Optional[dict] = None) -> dict:
                     V.append({"clause": "G.deleted_committed",
                               "msg": f"[{cfg}] the collector deleted {sorted(hit)[:2]} which the final metadata references",
                               "sig": (f"G.deleted_committed|{backend}|{world.seams.classify_rel(sorted(hit)[0])}"
-                                      if "/pre_" not in sorted(hit)[0] else
+                                      if "pre_" not in sorted(hit)[0].rsplit("/", 1)[-1] else
                                       "G.deleted_committed|prebuilt|" + prebuilt_cause(sim, sorted(hit)[0]))})
                 for s in st.snaps:
                     for p in s.files:
